@@ -194,6 +194,24 @@ _bounded_inner = bounded
 
 def bounded(tier, seed):
     out = _bounded_inner(tier, seed)
+    # A-pp / A-pp-ws: the compiled semantics of the filter grammar against the real pyparsing elements
+    import random
+    from props import filtergram as FG
+    from hv.peg import diff as D
+    rd = FG.FilterReader()
+    rnd = random.Random(seed)
+    gf = rd.gf
+    n_diff = 0
+    for nm in ['hs_str', 'hs_number', 'hs_ref', 'hs_dateTime', 'hs_path', 'hs_cmp', 'hs_missing', 'hs_term', 'hs_condAnd', 'hs_condOr']:
+        g = rd.ex.node(getattr(gf, nm))
+        sem = rd.comp.compile_depth(g, {0: 1, 1: 1})
+        deep = nm in ('hs_cmp', 'hs_term', 'hs_condAnd', 'hs_condOr')
+        c, bad = D.compare(rd.comp, g, sem, rnd, 150 if tier != 'thorough' else 1500, mutate=not deep)
+        n_diff += c
+        for b in bad[:2]:
+            out['failures'].append({'id': 'C11/A-pp/' + nm, 'what': 'E3 semantics %r, pyparsing %r on %r' % (b['semantics'], b['pyparsing'], b['text']), 'input': {'kind': 'app', 'element': nm, 'text': b['text']}})
+    out['cases'] += n_diff
+    out['bound'] = out.get('bound', '') + '; %d generated inputs comparing the compiled filter-grammar semantics with the real pyparsing elements' % n_diff
     r = replay({'kind': 'ref_id_deref'})
     out['cases'] += 1
     if r['reproduced']:
